@@ -20,6 +20,10 @@ pub enum Step {
     AddFreeDarts(u32),
     InsertFreeDart,
     RemoveFreeDart(u32),
+    /// `remove_free_dart(d)` whatever the state of `d` (in range, non-null): on a linked or
+    /// already removed dart the call must refuse, which it does by panicking; the panic is
+    /// caught and counts as the refusal
+    RemoveAnyDart(u32),
 }
 
 #[derive(Clone, Debug, PartialEq, Serialize, Deserialize)]
@@ -74,6 +78,7 @@ pub struct HistProbes {
     pub states: Vec<u64>,
     pub alloc_reuse: u64,
     pub alloc_append: u64,
+    pub illegal_removals: u64,
     pub callbacks: u64,
     pub k_premise_failed: u64,
     pub k_checked_success: u64,
@@ -96,6 +101,12 @@ fn real_partitions(map: &AnyMap, s: &State) -> Vec<Vec<u32>> {
     (0..3u8)
         .map(|o| (0..s.n() as u32).map(|d| if d == 0 || s.unused[d as usize] { 0 } else { map.cell_id(o, d) }).collect())
         .collect()
+}
+
+/// `remove_free_dart(d)` with the refusal (a panic raised by the method's assertions, before or
+/// after its transaction, never while a lock is held) caught. Returns true when refused.
+pub fn remove_catching(map: &mut AnyMap, d: u32) -> bool {
+    std::panic::catch_unwind(std::panic::AssertUnwindSafe(|| map.remove_free_dart(d))).is_err()
 }
 
 fn model_valid_for_remove(s: &State, d: u32) -> bool {
@@ -179,9 +190,24 @@ pub fn run_history_with(h: &History, checks: Checks, stop_at_first: bool, source
                 }
             }
             Step::RemoveFreeDart(d) => {
-                // only issued when legal on the model (refusals are exercised in sacrificial runs)
+                // only issued when legal on the model (refusals: `RemoveAnyDart`)
                 if model_valid_for_remove(&pre, *d) {
                     map.remove_free_dart(*d);
+                }
+            }
+            Step::RemoveAnyDart(d) => {
+                if *d != 0 && (*d as usize) < pre.n() {
+                    let legal = model_valid_for_remove(&pre, *d);
+                    let refused = remove_catching(&mut map, *d);
+                    if !legal {
+                        probes.illegal_removals += 1;
+                        if checks.alloc && !refused {
+                            let (class, what) = if pre.unused[*d as usize] { ("double-removal-accepted", "already removed") } else { ("removal-of-linked-dart-accepted", "linked") };
+                            findings.push(StepFinding { step: si, finding: Finding { prop: "C18", class: class.into(), msg: format!("remove_free_dart({d}) on a {what} dart was not refused") } });
+                        }
+                    } else if refused && checks.alloc {
+                        findings.push(StepFinding { step: si, finding: Finding { prop: "C18", class: "removal-of-free-dart-refused".into(), msg: format!("remove_free_dart({d}) on a free in-use dart panicked") } });
+                    }
                 }
             }
         }
